@@ -383,25 +383,37 @@ int main(int argc, char *argv[]) {
   if (m.src == STD) {
 
     char *line = NULL;
-    int chunk_brks = 0;
     size_t size = BUFFER_SIZE;
+    // read the whole program first: it is assembled with a single call, exactly
+    // like a FILE, so that both sources give the same code, count and printout
+    char *program = NULL;
+    size_t program_len = 0;
+    ssize_t line_len = 0;
+    while ((line_len = getline(&line, &size, stdin)) != -1) {
+      char *grown = realloc(program, program_len + line_len + 1);
+      if (grown == NULL) {
+        fprintf(stderr, "failed to allocate memory for the program\n");
+        exit(EXIT_FAILURE);
+      }
+      program = grown;
+      memcpy(program + program_len, line, line_len + 1);
+      program_len += line_len;
+    }
+    free(line);
     // init total count
     if (m.count)
       total_chunk_brks = 0;
-
-    while (getline(&line, &size, stdin) != -1) {
-
+    if (program != NULL) {
       int ret = m.count ? asm_assemble_string_counting_chunks(
-                              al, line, ops.chunk_boundary, &chunk_brks)
-                        : asm_assemble_str(al, line);
+                              al, program, ops.chunk_boundary,
+                              &total_chunk_brks)
+                        : asm_assemble_str(al, program);
       if (ret) {
-        fprintf(stderr, "failed to assemble instruction: %s\n", line);
+        fprintf(stderr, "failed to assemble the program read from stdin\n");
         exit(EXIT_FAILURE);
       }
-      total_chunk_brks += chunk_brks;
     }
-
-    free(line);
+    free(program);
   }
 
   if (total_chunk_brks != -1)
